@@ -1,0 +1,11 @@
+//go:build verif
+// +build verif
+
+package server
+
+import "go.etcd.io/etcd/clientv3"
+
+// VerifInitOrGetClusterID calls initOrGetClusterID (verification hook).
+func VerifInitOrGetClusterID(c *clientv3.Client, key string) (uint64, error) {
+	return initOrGetClusterID(c, key)
+}
